@@ -187,6 +187,7 @@ func runC06(c *vf.Ctx) {
 			// afterRefresh applies the property's clauses after a refresh that returned nil.
 			missOverlap := false // set while checking a refresh that overlapped a lookup miss
 			twoRefreshes := false // set when an "overlapping" step really ran two refreshes one after the other
+			overlapCancelled := false // set while checking a refresh that was requested while a later-cancelled one ran
 			afterRefresh := func(lo, hi time.Time, label string) {
 				l := list()
 				for _, p := range append(append([]peer.ID(nil), provs...), strangers...) {
@@ -198,7 +199,9 @@ func runC06(c *vf.Ctx) {
 					if reported {
 						if inList == nil {
 							key := "reported-provider-not-listed-after-refresh"
-							if missOverlap {
+							if overlapCancelled {
+								key = "reported-provider-not-listed-after-refresh:requested-during-a-refresh-that-was-then-cancelled"
+							} else if missOverlap {
 								key = "reported-provider-not-listed-after-refresh:refresh-overlapping-lookup-miss"
 							} else if cancelledSinceOK {
 								key = "reported-provider-not-listed-after-refresh:cancelled-refresh-then-success"
@@ -218,7 +221,9 @@ func runC06(c *vf.Ctx) {
 							}
 							if !untimedOnly[p] && versionOf(pi) < want {
 								key := "stale-record-after-refresh"
-								if missOverlap {
+								if overlapCancelled {
+									key = "stale-record-after-refresh:requested-during-a-refresh-that-was-then-cancelled"
+								} else if missOverlap {
 									key = "stale-record-after-refresh:refresh-overlapping-lookup-miss"
 								} else if cancelledSinceOK {
 									key = "stale-record-after-refresh:cancelled-refresh-then-success"
@@ -288,7 +293,7 @@ func runC06(c *vf.Ctx) {
 			nsteps := 10 + r.Intn(30)
 			prevKind := "start"
 			for st := 0; st < nsteps && !bad; st++ {
-				kind := []string{"change", "change", "refresh", "refresh", "refresh-cancelled", "refresh-overlap", "refresh-while-miss", "get-miss", "get-negative", "fail-source", "heal-source", "wait"}[r.Intn(12)]
+				kind := []string{"change", "change", "refresh", "refresh", "refresh-cancelled", "refresh-overlap", "refresh-while-miss", "get-miss", "get-negative", "fail-source", "heal-source", "wait", "refresh-overlap-cancelled"}[r.Intn(13)]
 				c.DistinctIn("step_bigrams", prevKind, kind)
 				prevKind = kind
 				switch kind {
@@ -392,6 +397,57 @@ func runC06(c *vf.Ctx) {
 					twoRefreshes = callsAfter-callsBefore >= 2
 					afterRefresh(lo, hi, fmt.Sprintf("step %d overlapping refresh", st))
 					twoRefreshes = false
+				case "refresh-overlap-cancelled":
+					// a refresh is inside a source when a second one is requested; the first is then cancelled.
+					// The second returns without error: everything the property says about a refresh that
+					// completes without error applies to it.
+					if ttlMode == "tiny" {
+						time.Sleep(2 * time.Millisecond)
+					}
+					at := r.Intn(nsrc)
+					gate := make(chan struct{})
+					entered := make(chan struct{}, 1)
+					ctxA, cancelA := context.WithCancel(context.Background())
+					srcs[at].mu.Lock()
+					srcs[at].onFetchAll = func(cx context.Context) error {
+						select {
+						case entered <- struct{}{}:
+							<-gate
+							return cx.Err()
+						default:
+							return nil // (only the first call is held)
+						}
+					}
+					srcs[at].mu.Unlock()
+					lo := time.Now()
+					errA := make(chan error, 1)
+					errB := make(chan error, 1)
+					go func() { errA <- pc.Refresh(ctxA) }()
+					<-entered
+					go func() { errB <- pc.Refresh(context.Background()) }()
+					time.Sleep(time.Millisecond)
+					cancelA()
+					close(gate)
+					eA := <-errA
+					eB := <-errB
+					srcs[at].mu.Lock()
+					srcs[at].onFetchAll = nil
+					srcs[at].mu.Unlock()
+					hi := time.Now()
+					steps = append(steps, fmt.Sprintf("Refresh A held inside %s, Refresh B requested, A cancelled -> A: %v, B: %v", srcs[at].name, eA, eB))
+					if eA == nil {
+						fail("cancelled-refresh-returned-nil", "")
+						break
+					}
+					if eB != nil {
+						fail("refresh-error", eB.Error())
+						break
+					}
+					cancelledSinceOK = false
+					c.Inc("refreshes_overlapping_a_cancelled_one")
+					overlapCancelled = true
+					afterRefresh(lo, hi, fmt.Sprintf("step %d refresh requested while another, later cancelled, refresh was running", st))
+					overlapCancelled = false
 				case "refresh-while-miss":
 					// a lookup miss is inside a source when Refresh is called
 					if ttlMode == "tiny" {
